@@ -384,7 +384,11 @@ def guards (s : State) : Ev → List (String × Bool)
   | .fork n f => [("mrp-dead", s.phase != Phase.crashed), ("no-such-node", decide (n < s.nodes.length)),
                   ("fork-exists", !(s.forksOf n).contains f),
                   ("expansion-of-finished-or-running-node",
-                    s.phase != Phase.normal || (!nodeDone s n && s.cachedOf n != NState.running))]
+                    s.phase != Phase.normal || (!nodeDone s n && s.cachedOf n != NState.running)),
+                  -- re-attaching rebuilds the forks; a fork unknown so far can only belong
+                  -- to a node that is not finished (only the very first load starts from nothing)
+                  ("new-fork-of-finished-node-at-restart",
+                    s.phase != Phase.loading || s.inc == 0 || !nodeDone s n)]
   | .forkorder n l => [("only-at-load", s.phase == .loading), ("not-a-sublist-of-known-forks", isSubNodup l (s.forksOf n))]
   | .mkchunks n f k =>
       [("mrp-dead", s.phase != Phase.crashed), ("no-such-fork", s.hasObj ⟨n, f, .fork⟩),
